@@ -30,6 +30,7 @@ ALLOWED_SITES = {
     ("forest.py", "__init__", "random.Random"),            # random.Random(0)
     ("forest.py", "derive_unsafe_rng", "random.Random"),   # seeded from the forest's own generator
     ("blob.py", "__init__", "random.Random"),              # random.Random(0)
+    ("blob.py", "_read", "random.Random"),                 # random.Random(0): a fresh generator per request (fix ce1880b, F15)
 }
 PATTERNS = ("random.", "np.random.", "numpy.random.", "time.time", "time.perf_counter", "secrets.", "os.urandom", "uuid.", "datetime.now", "datetime.datetime.now")
 
